@@ -63,11 +63,14 @@ pub fn check(ctx: &mut Ctx, doc: &Tree, path: &JPath, text: &str) {
         },
     }
     // the same selection appended to a data buffer that already holds bytes (with no offsets
-    // reported for them): the offsets are positions in that buffer
+    // reported for them), in each of the four modes in turn: the offsets are positions in that
+    // buffer and what they delimit is what the mode denotes (all items; the first; one array of
+    // all; the item itself or, from two items on, one array)
     if ctx.case_no % 3 == 0 && enc.len() < 100_000 {
         if let Outcome::Items(exp) = &expected {
+            let mode = ((ctx.case_no / 3) % 4) as usize;
             let (mut data, mut offs): (Vec<u8>, Vec<u64>) = (vec![0x5A, 0x80, 0, 0, 1], Vec::new());
-            if let Sel::Ok(_) = select_into(text.as_bytes(), &enc, 0, &mut data, &mut offs) {
+            if let Sel::Ok(_) = select_into(text.as_bytes(), &enc, mode, &mut data, &mut offs) {
                 let mut prev = 5usize;
                 let mut items: Vec<Vec<u8>> = Vec::new();
                 let mut ok = data.len() >= 5 && data[..5] == [0x5A, 0x80, 0, 0, 1];
@@ -80,9 +83,16 @@ pub fn check(ctx: &mut Ctx, doc: &Tree, path: &JPath, text: &str) {
                     items.push(data[prev..o].to_vec());
                     prev = o;
                 }
-                let exp_bytes: Vec<Vec<u8>> = exp.iter().map(refcodec::encode).collect();
+                let as_array = || vec![refcodec::encode(&Tree::Arr(exp.clone()))];
+                let exp_bytes: Vec<Vec<u8>> = match mode {
+                    0 => exp.iter().map(refcodec::encode).collect(),
+                    1 => exp.iter().take(1).map(refcodec::encode).collect(),
+                    2 => as_array(),
+                    _ if exp.len() > 1 => as_array(),
+                    _ => exp.iter().map(refcodec::encode).collect(),
+                };
                 if !ok || prev != data.len() || items != exp_bytes {
-                    ctx.violation("select/offsets-not-positions-in-prefilled-buffer", || format!("data={} offsets={:?} (5 bytes were in the buffer, no offsets) expected {} item(s) ; {}", hex(&data), offs, exp.len(), info()));
+                    ctx.violation("select/offsets-not-positions-in-prefilled-buffer", || format!("mode {}: data={} offsets={:?} (5 bytes were in the buffer, no offsets) expected {} item(s) of the path ; {}", MODE_NAMES[mode], hex(&data), offs, exp.len(), info()));
                 }
             }
         }
